@@ -61,6 +61,16 @@ type ftr struct {
 	usesFuel bool
 	varsName string
 	mk       string
+	// part 2 (conc.go): sub-expressions that were moved in front of the statement (receives, calls of goroutine
+	// functions) and what to read instead
+	subst map[ast.Expr]*substVal
+	// part 2: cap(ch) of a channel as a term of type Z
+	chanCap func(e ast.Expr) (string, error)
+}
+
+type substVal struct {
+	texts []string
+	tys   []*ctype
 }
 
 var fuelWord = regexp.MustCompile(`\bfuel\b`)
